@@ -208,3 +208,53 @@ Lemma set_at_spec (l : L) i x k : k < length l ->
 Proof. intros. unfold set_at. apply get_tab. assumption. Qed.
 
 End StateProofs.
+
+(* ---- sesquilinear forms: vdot / inner / DensityMatrix.overlap = Tr(A^dagger B) ---------------------------- *)
+Section Sesqui.
+Variable o : Kops.
+Hypothesis laws : Klaws o.
+Add Ring Kr5 : (K_ring o laws).
+Open Scope K_scope.
+Notation cj := (kconj o).
+Notation L := (list o).
+
+Lemma ksum_seq_shift n : forall s (f : nat -> o), ksum (seq s n) f = ksum (seq 0 n) (fun c => f (s + c)%nat).
+Proof.
+  induction n as [|n IH]; intros s f; [reflexivity|]. cbn [seq ksum fold_right].
+  rewrite Nat.add_0_r. f_equal. change (fold_right (fun a acc => f a + acc) (k0 o) (seq (S s) n)) with (ksum (seq (S s) n) f).
+  change (fold_right (fun a acc => f (s + a)%nat + acc) (k0 o) (seq 1 n)) with (ksum (seq 1 n) (fun c => f (s + c)%nat)).
+  rewrite (IH (S s) f), (IH 1 (fun c => f (s + c)%nat)).
+  apply ksum_ext. intros c _. f_equal. lia.
+Qed.
+
+(* a flat sum over a row-major D x D array is the double sum over rows and columns *)
+Lemma ksumn_rows D : forall R (f : nat -> o),
+  ksumn (R * D) f = ksumn R (fun r => ksumn D (fun c => f (r * D + c)%nat)).
+Proof.
+  induction R as [|R IH]; intros f; [reflexivity|].
+  unfold ksumn in *. replace (S R * D)%nat with (R * D + D)%nat by lia.
+  rewrite seq_app, (ksum_app o laws), IH. rewrite seq_S, (ksum_app o laws). cbn [ksum fold_right plus].
+  rewrite (ksum_seq_shift D (R * D) f). ring.
+Qed.
+
+Theorem vdot_antilinear s (a b : L) : vdot o (vscale s a) b = cj s * vdot o a b.
+Proof.
+  unfold vdot. rewrite (proj1 (vscale_spec o s a)). unfold ksumn. rewrite <- (ksum_mul_l o laws).
+  apply ksum_ext. intros k Hk. apply in_seq in Hk.
+  rewrite (proj2 (vscale_spec o s a)) by lia. rewrite (conj_mul o laws). ring.
+Qed.
+
+Theorem vdot_conj_sym (a b : L) : length a = length b -> vdot o a b = cj (vdot o b a).
+Proof.
+  intros H. unfold vdot, ksumn. rewrite (ksum_conj o laws), H. apply ksum_ext. intros k _.
+  rewrite (conj_mul o laws), (conj_inv o laws). ring.
+Qed.
+
+(* DensityMatrix.overlap(A, B) = sum_c (A^dagger B)[c,c] = Tr(A^dagger B) for row-major D x D data *)
+Theorem dm_overlap_trace D (a b : L) : length a = (D * D)%nat ->
+  dm_overlap o a b = ksumn D (fun c => ksumn D (fun r => cj (get a (r * D + c)) * get b (r * D + c))).
+Proof.
+  intros H. unfold dm_overlap, vdot. rewrite H, ksumn_rows. unfold ksumn. apply (ksum_swap o laws).
+Qed.
+
+End Sesqui.
